@@ -4,4 +4,5 @@ package main
 func c07(stats map[string]int) {
 	c07wire(stats)
 	c07wireShapes(stats)
+	c07wireReturnEntity(stats)
 }
